@@ -1,3 +1,447 @@
-//! C19 placeholder (filled in later)
-use crate::Ctx;
-pub fn digest(_ctx: &Ctx) -> String { String::new() }
+//! C19 — build options change no result; argument checking fires only on dirty arguments.
+//!
+//! Every build variant runs (1) a fixed clean-argument workload whose observable
+//! results (bytes, values, lengths, positions, Ok/Err) are hashed per section — the
+//! hashes must be identical in all builds — and (2) the argument-checking matrix:
+//! with `checks`, write_bits(v, n) must panic exactly when v has a bit at or above n,
+//! and no write issued by the library itself may trip the check.
+
+use super::c02::fill_prefix;
+use super::common::*;
+use super::readhist::{gen_history, random_image, GenOpts};
+use crate::drivers::*;
+use crate::model::*;
+use crate::report::{hash_of, hex, Kv, Report};
+use crate::rng::{Pattern, Rng};
+use crate::{par_items, Ctx, Tier};
+use std::collections::BTreeMap;
+
+pub const CHECKS: bool = cfg!(feature = "checks");
+pub const NO_COPY_IMPLS: bool = cfg!(feature = "no_copy_impls");
+
+#[derive(Default)]
+pub struct Transcript {
+    pub sections: BTreeMap<String, (u64, u64, Vec<String>)>,
+    pub keep: usize,
+}
+impl Transcript {
+    pub fn ev(&mut self, section: &str, text: String) {
+        let keep = self.keep;
+        let s = self.sections.entry(section.to_string()).or_insert((0x1234_5678, 0, vec![]));
+        s.0 = hash_of(&(s.0, &text));
+        s.1 += 1;
+        if s.2.len() < keep {
+            s.2.push(text);
+        }
+    }
+}
+
+fn show<T: std::fmt::Debug>(o: &Out<T>) -> String {
+    match o {
+        Out::Ok(v) => format!("Ok({:?})", v),
+        Out::Err(_) => "Err".into(),
+        // the panic text contains file/line, identical across builds of the same tree, but
+        // messages differ between profiles (overflow vs assertion): keep the fact only
+        Out::Panic(_) => "PANIC".into(),
+    }
+}
+
+fn clean_ops(rng: &mut Rng, len: usize, wbits: usize) -> Vec<WOp> {
+    let mut ops = vec![];
+    let codes = [
+        CodeOp::Std(Code::Gamma),
+        CodeOp::GammaP(false),
+        CodeOp::Std(Code::Delta),
+        CodeOp::DeltaP(false, false),
+        CodeOp::Std(Code::Omega),
+        CodeOp::Std(Code::Zeta(3)),
+        CodeOp::ZetaKP(5, true),
+        CodeOp::Std(Code::Pi(2)),
+        CodeOp::Std(Code::Rice(4)),
+        CodeOp::Std(Code::Golomb(7)),
+        CodeOp::Std(Code::ExpGolomb(3)),
+        CodeOp::Std(Code::MinBin(1000)),
+        CodeOp::Std(Code::VByteBe),
+        CodeOp::Std(Code::VByteLe),
+    ];
+    for _ in 0..len {
+        ops.push(match rng.below(100) {
+            0..=34 => {
+                let n = rng.below(65) as usize;
+                let v = if n == 64 { rng.next() } else { rng.next() & ((1u64 << n) - 1) };
+                WOp::Bits(v, n)
+            }
+            35..=49 => WOp::Unary(rng.below(3 * wbits as u64 + 2)),
+            50..=54 => WOp::Flush,
+            55..=59 => WOp::IoWrite((0..rng.below(20)).map(|_| rng.next() as u8).collect()),
+            _ => {
+                let c = *rng.pick(&codes);
+                WOp::Code(c, rng.log_uniform_max(c.code().max_value().min(1 << 45)).min(if matches!(c.code(), Code::Rice(_) | Code::Golomb(_)) { 5000 } else { u64::MAX }))
+            }
+        });
+    }
+    ops
+}
+
+/// The fixed workload. Everything is derived from constants: it must not depend on the
+/// seed of the run, only on the tree and the build.
+pub fn transcript(keep: usize, scale: usize) -> Transcript {
+    let mut t = Transcript { keep, ..Default::default() };
+    let mut rng = Rng::new(0xC19);
+    // ---- writers ----
+    for e in En::BOTH {
+        for w in WWord::ALL {
+            let sec = format!("write/{}/{}", e.name(), w.name());
+            for h in 0..12 * scale {
+                let ops = clean_ops(&mut rng, 1 + h % 40, w.bits());
+                let be = [WBackend::Rec(None), WBackend::VecOwned, WBackend::AdVec, WBackend::Slice(4096)][h % 4];
+                let mut wr = make_writer(WCfg { e, w, be });
+                for op in &ops {
+                    let r = match op {
+                        WOp::Bits(v, n) => guard(|| wr.w.write_bits(*v, *n)),
+                        WOp::Unary(x) => guard(|| wr.w.write_unary(*x)),
+                        WOp::Flush => guard(|| wr.w.flush()),
+                        WOp::Code(c, v) => guard(|| wr.w.write_code(*c, *v)),
+                        WOp::IoWrite(b) => guard(|| wr.w.io_write_all(b).unwrap().map(|_| b.len())),
+                    };
+                    t.ev(&sec, format!("{} -> {}", op.to_string(), show(&r)));
+                }
+                let bytes = guard(|| wr.w.into_bytes().unwrap());
+                t.ev(&sec, format!("image {}", bytes.ok().map(|b| hex(&b)).unwrap_or("ERR".into())));
+            }
+        }
+    }
+    // ---- readers ----
+    let o = GenOpts { seeks: true, io: true, codes: true, clones: true, pos: true, max_read_code_len: 200 };
+    for e in En::BOTH {
+        for kind in RKind::ALL {
+            let sec = format!("read/{}/{}", e.name(), kind.name());
+            // only table options that every build treats alike (the diagnostic set is a property of the tree)
+            let cops: Vec<CodeOp> = vec![
+                CodeOp::Std(Code::Gamma),
+                CodeOp::GammaP(false),
+                CodeOp::Std(Code::Delta),
+                CodeOp::DeltaP(false, false),
+                CodeOp::Zeta3Def,
+                CodeOp::Zeta3P(false),
+                CodeOp::Std(Code::Omega),
+                CodeOp::Std(Code::Pi(3)),
+                CodeOp::Std(Code::Rice(2)),
+                CodeOp::Std(Code::Golomb(6)),
+                CodeOp::Std(Code::ExpGolomb(1)),
+                CodeOp::Std(Code::MinBin(77)),
+                CodeOp::Std(Code::VByteBe),
+                CodeOp::Std(Code::VByteLe),
+            ];
+            let cops: Vec<CodeOp> = if kind == RKind::Buf8 { cops } else { cops.into_iter().chain([CodeOp::GammaP(true), CodeOp::DeltaP(true, true), CodeOp::Zeta3P(true)].into_iter()).collect() };
+            for h in 0..10 * scale {
+                let pat = [Pattern::Random, Pattern::ZeroRuns, Pattern::Sparse, Pattern::Ones][h % 4];
+                let wb = kind.word_bytes();
+                let img = random_image(&mut rng, pat, ((16 + h % 70) / wb + 1) * wb, e);
+                let be = RBackend::ALL[h % 8];
+                let cfg = RCfg { e, kind, be };
+                let ops = gen_history(&mut rng, cfg, &img, 4 + h % 30, &o, &cops);
+                let mut r = make_reader(cfg, &img);
+                for op in &ops {
+                    let s = match op {
+                        ROp::Read(n) => show(&guard(|| r.r.read_bits(*n))),
+                        ROp::Peek(n) => show(&guard(|| r.r.peek_bits(*n))),
+                        ROp::Skip(n) => show(&guard(|| r.r.skip_bits(*n))),
+                        ROp::Unary => show(&guard(|| r.r.read_unary())),
+                        ROp::Code(c) => show(&guard(|| r.r.read_code(*c))),
+                        ROp::Pos => show(&guard(|| r.r.bit_pos().unwrap())),
+                        ROp::Seek(p) => show(&guard(|| r.r.set_bit_pos(*p).unwrap())),
+                        ROp::IoRead(n) => show(&guard(|| r.r.io_read(*n).unwrap())),
+                        ROp::CloneSwitch => {
+                            if let Some(c) = r.r.try_clone() {
+                                r.r = c;
+                            }
+                            "clone".into()
+                        }
+                    };
+                    t.ev(&sec, format!("{} -> {}", op.to_string(), s));
+                }
+            }
+        }
+    }
+    // ---- bulk copies: the three paths must be indistinguishable, with or without the optimised impls ----
+    for e in En::BOTH {
+        for kind in RKind::ALL {
+            for ww in WWord::ALL {
+                let sec = format!("copy/{}/{}/{}", e.name(), kind.name(), ww.name());
+                let rw = kind.word_bits();
+                let img = random_image(&mut rng, Pattern::Random, (2000 / 8 / (rw / 8) + 1) * (rw / 8), e);
+                for h in 0..6 * scale {
+                    let f = (h * 7 + 3) % (2 * rw);
+                    let prefix = if kind.buffered() { fill_prefix(f, rw) } else { vec![ROp::Skip(f % 64)] };
+                    let n = [0u64, 1, 7, 63, 64, 65, 70, 127, 128, 129, 200, 515][h % 12] + (h / 12) as u64;
+                    for path in 0..3 {
+                        let mut r = make_reader(RCfg { e, kind, be: RBackend::MemZ }, &img);
+                        let mut w = make_writer(WCfg { e, w: ww, be: WBackend::Rec(None) });
+                        for op in &prefix {
+                            match op {
+                                ROp::Read(k) => {
+                                    let _ = guard(|| r.r.read_bits(*k));
+                                }
+                                ROp::Peek(k) => {
+                                    let _ = guard(|| r.r.peek_bits(*k));
+                                }
+                                ROp::Skip(k) => {
+                                    let _ = guard(|| r.r.skip_bits(*k));
+                                }
+                                _ => {}
+                            }
+                        }
+                        let df = (h * 5) % ww.bits();
+                        let mut left = df;
+                        while left > 0 {
+                            let m = left.min(64);
+                            let _ = guard(|| w.w.write_bits(if m == 64 { 0x0123_4567_89ab_cdef } else { 0x0123_4567_89ab_cdef & ((1u64 << m) - 1) }, m));
+                            left -= m;
+                        }
+                        let res = match path {
+                            0 => guard(|| r.r.copy_to(w.w.as_mut(), n)),
+                            1 => guard(|| w.w.copy_from(r.r.as_mut(), n)),
+                            _ => guard(|| generic_copy(e, r.r.as_mut(), w.w.as_mut(), n, false)),
+                        };
+                        let pos = guard(|| r.r.bit_pos().unwrap());
+                        let next = guard(|| r.r.read_bits(40));
+                        let _ = guard(|| w.w.write_bits(5, 3));
+                        let _ = guard(|| w.w.flush());
+                        // the path is not part of the event text: all paths must give the same observations
+                        t.ev(&sec, format!("fill {} dst {} n {} -> {} pos {} next {} image {}", f, df, n, show(&res), show(&pos), show(&next), hex(&w.w.delivered().unwrap_or_default())));
+                    }
+                }
+            }
+        }
+    }
+    // ---- lengths ----
+    for code in code_grid(false) {
+        let sec = format!("len/{}", code.family());
+        for v in crate::rng::boundary_values(code.max_value(), 40) {
+            for (name, l) in super::codes::lib_lens(code, v) {
+                t.ev(&sec, format!("{} {} {} -> {}", code.name(), name, v, show(&l)));
+            }
+        }
+    }
+    t
+}
+
+pub fn digest(_ctx: &Ctx) -> String {
+    let t = transcript(3000, 2);
+    let mut s = String::new();
+    s.push_str(&format!("build checks={} no_copy_impls={} debug_assertions={}\n", CHECKS, NO_COPY_IMPLS, cfg!(debug_assertions)));
+    for (name, (h, n, _)) in &t.sections {
+        s.push_str(&format!("section {} {:016x} {}\n", name, h, n));
+    }
+    for (name, (_, _, evs)) in &t.sections {
+        for (i, e) in evs.iter().enumerate() {
+            s.push_str(&format!("event {} {} {}\n", name, i, e));
+        }
+    }
+    s
+}
+
+// ---- the argument-checking matrix ----------------------------------------------------------------
+
+fn dirty_matrix(e: En, w: WWord, rep: &mut Report) {
+    let wbits = w.bits();
+    let kvf = |n: usize, bit: Option<usize>, fill: usize| move || format!("part=matrix e={} w={} n={} bit={} fill={}", e.name(), w.name(), n, bit.map(|b| b as i64).unwrap_or(-1), fill);
+    // fill levels that select the fast path (n < free bits) and the spill path
+    let fills = [0usize, 1, wbits / 2, wbits - 1];
+    for n in 0..=64usize {
+        let mask = if n == 64 { u64::MAX } else { (1u64 << n) - 1 };
+        for &fill in &fills {
+            let path = if n < wbits - fill { "fast" } else { "spill" };
+            let prefill = |h: &mut WriterHandle| {
+                let mut left = fill;
+                while left > 0 {
+                    let m = left.min(64);
+                    let _ = guard(|| h.w.write_bits(0, m));
+                    left -= m;
+                }
+            };
+            // clean arguments never panic, in any build
+            for v in [0u64, mask, 0x5555_5555_5555_5555 & mask, if n > 0 { 1u64 << (n - 1) } else { 0 }] {
+                let mut h = make_writer(WCfg { e, w, be: WBackend::Rec(None) });
+                prefill(&mut h);
+                let r = guard(|| h.w.write_bits(v, n));
+                rep.eval(1);
+                if r != Out::Ok(n) {
+                    rep.violation(&format!("clean-argument|{}|{}", path, r.class()), || format!("write_bits({:#x}, {}) with {} bits pending ({} {} writer, checks={}) returned {}", v, n, fill, e.name(), w.name(), CHECKS, r.show()), kvf(n, None, fill));
+                }
+                let _ = guard_v(|| h.w.drop_now());
+            }
+            // every single dirty bit at or above n
+            for bit in n..64 {
+                let v = (0x5555_5555_5555_5555 & mask) | (1u64 << bit);
+                let mut h = make_writer(WCfg { e, w, be: WBackend::Rec(None) });
+                prefill(&mut h);
+                let r = guard(|| h.w.write_bits(v, n));
+                rep.eval(1);
+                rep.case(&(e, w, n, bit, path));
+                let panicked_on_check = matches!(&r, Out::Panic(p) if p.contains("does not fit"));
+                if CHECKS && !panicked_on_check {
+                    rep.violation(&format!("dirty-not-detected|{}", path), || format!("with checks, write_bits({:#x}, {}) (bit {} set, {} bits pending, {} {}) returned {} instead of panicking", v, n, bit, fill, e.name(), w.name(), r.show()), kvf(n, Some(bit), fill));
+                }
+                if !CHECKS && r != Out::Ok(n) {
+                    rep.violation(&format!("dirty-panics-without-checks|{}|{}", path, r.class()), || format!("without checks, write_bits({:#x}, {}) returned {}", v, n, r.show()), kvf(n, Some(bit), fill));
+                }
+                let _ = guard_v(|| h.w.drop_now());
+            }
+        }
+    }
+    rep.exhaustive(&format!("{}/{}: write_bits(v, n) for every n in 0..=64 x every single dirty bit >= n x 4 fill levels (fast and spill path)", e.name(), w.name()));
+}
+
+/// writes issued by the library itself must never trip the check
+fn library_writes(e: En, w: WWord, ctx: &Ctx, rep: &mut Report) {
+    let mut rng = Rng::derive(ctx.seed, hash_of(&(0xC19Au64, e, w)));
+    let thorough = ctx.tier == Tier::Thorough;
+    for code in code_grid(thorough) {
+        let vals = value_grid(code, ctx.pick(4, 24, 100), &mut rng, ctx.pick(1, 6, 40));
+        for (vi, v) in vals.iter().enumerate() {
+            if code_len(code, *v) > 3000 {
+                continue;
+            }
+            for (mi, wop) in super::codes::write_methods(code).into_iter().enumerate() {
+                if !thorough && (vi + mi) % 2 == 1 && mi > 0 {
+                    continue;
+                }
+                let mut h = make_writer(WCfg { e, w, be: WBackend::Rec(None) });
+                let pre = (vi * 7 + mi) % w.bits();
+                let mut left = pre;
+                while left > 0 {
+                    let m = left.min(64);
+                    let _ = guard(|| h.w.write_bits(0, m));
+                    left -= m;
+                }
+                let r = guard(|| h.w.write_code(wop, *v));
+                rep.eval(1);
+                if r != Out::Ok(code_len(code, *v) as usize) {
+                    rep.violation(
+                        &format!("library-write|{}|{}", code.family(), r.class()),
+                        || format!("{} of {} on a {} {} writer (checks={}) returned {}", wop.name(), v, e.name(), w.name(), CHECKS, r.show()),
+                        || format!("part=libwrite e={} w={} wop={} value={} pre={}", e.name(), w.name(), codeop_to_string(&wop), v, pre),
+                    );
+                }
+                let _ = guard_v(|| h.w.drop_now());
+            }
+        }
+    }
+    // copies and byte writes
+    for kind in RKind::ALL {
+        let rw = kind.word_bits();
+        let img = random_image(&mut rng, Pattern::Random, (1600 / 8 / (rw / 8) + 1) * (rw / 8), e);
+        let fills: Vec<usize> = if kind.buffered() { (0..2 * rw).step_by(ctx.pick(17, 3, 1)).collect() } else { vec![0, 1, 63] };
+        for f in fills {
+            for n in [0u64, 1, 5, 31, 63, 64, 65, 70, 100, 127, 128, 130, 300] {
+                for path in 0..3 {
+                    let mut r = make_reader(RCfg { e, kind, be: RBackend::MemZ }, &img);
+                    let mut wr = make_writer(WCfg { e, w, be: WBackend::Rec(None) });
+                    let prefix = if kind.buffered() { fill_prefix(f, rw) } else { vec![ROp::Skip(f)] };
+                    for op in &prefix {
+                        match op {
+                            ROp::Read(k) => {
+                                let _ = guard(|| r.r.read_bits(*k));
+                            }
+                            ROp::Peek(k) => {
+                                let _ = guard(|| r.r.peek_bits(*k));
+                            }
+                            ROp::Skip(k) => {
+                                let _ = guard(|| r.r.skip_bits(*k));
+                            }
+                            _ => {}
+                        }
+                    }
+                    let _ = guard(|| wr.w.write_bits(1, (f * 3) % w.bits().min(64)));
+                    let res = match path {
+                        0 => guard(|| r.r.copy_to(wr.w.as_mut(), n)),
+                        1 => guard(|| wr.w.copy_from(r.r.as_mut(), n)),
+                        _ => guard(|| generic_copy(e, r.r.as_mut(), wr.w.as_mut(), n, true)),
+                    };
+                    rep.eval(1);
+                    if !res.is_ok() {
+                        rep.violation(
+                            &format!("library-write|copy|{}", res.class()),
+                            || format!("copy path {} of {} bits from {} at fill {} into a {} {} writer (checks={}) returned {}", path, n, kind.name(), f, e.name(), w.name(), CHECKS, res.show()),
+                            || format!("part=copy e={} w={} kind={} fill={} n={} path={}", e.name(), w.name(), kind.name(), f, n, path),
+                        );
+                    }
+                    let _ = guard_v(|| wr.w.drop_now());
+                }
+            }
+        }
+    }
+    for len in 0..40usize {
+        for off in [0usize, 1, 7, w.bits() - 1] {
+            let mut h = make_writer(WCfg { e, w, be: WBackend::Rec(None) });
+            let _ = guard(|| h.w.write_bits(0, off.min(64)));
+            let bytes: Vec<u8> = (0..len).map(|i| (i as u8).wrapping_mul(151) ^ 0xff).collect();
+            let r = guard(|| h.w.io_write_all(&bytes).unwrap());
+            rep.eval(1);
+            if !r.is_ok() {
+                rep.violation(&format!("library-write|io_write|{}", r.class()), || format!("write_all of {} bytes at bit {} ({} {}, checks={}) returned {}", len, off, e.name(), w.name(), CHECKS, r.show()), || format!("part=io e={} w={} len={} off={}", e.name(), w.name(), len, off));
+            }
+            let _ = guard_v(|| h.w.drop_now());
+        }
+    }
+}
+
+#[derive(Clone, Copy, Debug, PartialEq, Eq, Hash)]
+enum Item {
+    Matrix(En, WWord),
+    LibWrites(En, WWord),
+    Digest,
+}
+
+pub fn run(ctx: &Ctx) -> Report {
+    let mut work = vec![Item::Digest];
+    for e in En::BOTH {
+        for w in WWord::ALL {
+            work.push(Item::Matrix(e, w));
+            work.push(Item::LibWrites(e, w));
+        }
+    }
+    let mut rep = par_items(ctx, "C19", &work, |item, rep| match *item {
+        Item::Matrix(e, w) => dirty_matrix(e, w, rep),
+        Item::LibWrites(e, w) => library_writes(e, w, ctx, rep),
+        Item::Digest => {
+            let t = transcript(4, ctx.pick(1, 2, 8));
+            for (name, (h, n, evs)) in &t.sections {
+                // the aggregator unions these sets over the build variants: more than one
+                // element in a set = two builds produced different observable results
+                rep.cover(&format!("digest/{}", name), *h);
+                rep.eval(*n);
+                rep.count("transcript_events", *n);
+                if let Some(e0) = evs.first() {
+                    if name.starts_with("copy/BE/buf-u64/u128") || name.starts_with("write/LE/u8") {
+                        rep.sample(|| format!("[{}] {}", name, e0));
+                    }
+                }
+            }
+            rep.case(&("transcript", t.sections.len()));
+        }
+    });
+    rep.note(format!("this build: checks={} no_copy_impls={} debug_assertions={}", CHECKS, NO_COPY_IMPLS, cfg!(debug_assertions)));
+    rep
+}
+
+pub fn replay(case: &str, rep: &mut Report) {
+    let kv = Kv::parse(case);
+    let ctx = Ctx { tier: Tier::Quick, seed: 0, threads: 1, procs: 1, variant: "replay".into(), shard: None };
+    match kv.get("part") {
+        "matrix" => {
+            let w = *WWord::ALL.iter().find(|w| w.name() == kv.get("w")).unwrap();
+            dirty_matrix(parse_en(kv.get("e")), w, rep);
+        }
+        "digest" => {
+            // a cross-build difference: nothing to replay inside one build; print this build's digest
+            println!("{}", digest(&ctx));
+        }
+        _ => {
+            let w = *WWord::ALL.iter().find(|w| w.name() == kv.get("w")).unwrap();
+            library_writes(parse_en(kv.get("e")), w, &ctx, rep);
+        }
+    }
+}
